@@ -562,7 +562,7 @@ func c01Run(c core.Case, env *core.Env) core.Result {
 	full := c.P.Int("full")
 	before := snapshotECDSA(sel)
 	defer setDefaultCurve(c.P, "secp256k1")()
-	w := sim.ECDSASigning(env.Seed+int64(len(c.ID)), sel, t, digest, sim.SignOpts{FullBytesLen: full, Shuffle: c.P.Bool("shuffle")})
+	w := sim.ECDSASigning(env.Seed+int64(len(c.ID)), sel, t, digest, sim.SignOpts{FullBytesLen: full, Shuffle: c.P.Bool("shuffle"), PartyCount: c.P.Int("pcount")})
 	w.ShareObjects = c.P.Bool("objects")
 	w.Run(schedByName(c.P.Str("sched"), w), nil)
 	noteRun(&r, w)
@@ -729,7 +729,7 @@ func c02Run(c core.Case, env *core.Env) core.Result {
 	full := c.P.Int("full")
 	beforeKeys := snapshotEDDSA(sel)
 	defer setDefaultCurve(c.P, "ed25519")()
-	w := sim.EDDSASigning(env.Seed+int64(len(c.ID)), sel, t, msg, sim.SignOpts{FullBytesLen: full, Shuffle: c.P.Bool("shuffle")})
+	w := sim.EDDSASigning(env.Seed+int64(len(c.ID)), sel, t, msg, sim.SignOpts{FullBytesLen: full, Shuffle: c.P.Bool("shuffle"), PartyCount: c.P.Int("pcount")})
 	w.ShareObjects = c.P.Bool("objects")
 	w.Run(schedByName(c.P.Str("sched"), w), nil)
 	noteRun(&r, w)
